@@ -144,6 +144,14 @@ func (s *grpcServer) GetCapabilities(ctx context.Context,
 
 // Return an error if `hash` is not a valid cache key.
 func (s *grpcServer) validateHash(hash string, size int64, logPrefix string) error {
+	if size < -1 {
+		// -1 is tolerated: it is what our own gRPC proxy sends for
+		// "size unknown" when looking up action results.
+		msg := fmt.Sprintf("Invalid (negative) size: %d", size)
+		s.accessLogger.Printf("%s %s: %s", logPrefix, hash, msg)
+		return status.Error(codes.InvalidArgument, msg)
+	}
+
 	if size == int64(0) {
 		if hash == emptySha256 {
 			return nil
